@@ -262,6 +262,21 @@ def h_concrete_boxes(ctx):
                 ok_ind = ok_ind and [int(v) for v in I[:6, 0]] == want
     ctx.claim('scaled_points_inside_the_target_interval', bool(ok_range))
     ctx.claim('points_outside_go_to_the_boundary_index', bool(ok_ind))
+    # index arrays of narrow integer dtypes (what a compact sample file holds) on grids as long as the
+    # dtype allows: same points as for the default integer dtype, ends at the ends, exact round trip
+    ok_nar = True
+    for dt, n in ((np.uint8, 130), (np.uint8, 256), (np.int8, 66), (np.int8, 128), (np.int16, 20000), (np.uint16, 40000)):
+        I64 = np.array([0, 1, n // 4, n // 2, n // 2 + 1, n - 2, n - 1]).reshape(-1, 1)
+        In = I64.astype(dt)
+        for kind in ('uni', 'cheb'):
+            P64 = teneva.ind_to_poi(I64, -2., 3., n, kind)
+            Pn = teneva.ind_to_poi(In, -2., 3., n, kind)
+            ok_nar = ok_nar and bool(np.allclose(Pn, P64, rtol=0, atol=1e-12)) and In.dtype == dt
+            ok_nar = ok_nar and bool(np.all((Pn >= -2.) & (Pn <= 3.)))
+            lo, hi = (Pn[0, 0], Pn[-1, 0]) if kind == 'uni' else (Pn[-1, 0], Pn[0, 0])
+            ok_nar = ok_nar and abs(lo + 2.) < 1e-12 and abs(hi - 3.) < 1e-12
+            ok_nar = ok_nar and bool(np.array_equal(np.asarray(teneva.poi_to_ind(Pn, -2., 3., n, kind), dtype=int), I64))
+    ctx.claim('narrow_integer_index_dtypes', bool(ok_nar))
 
 
 def instances(tier):
@@ -286,7 +301,7 @@ def instances(tier):
         out.append({'func': 'h_uni_roundtrip_fl', 'params': {}})
     for kind in ('uni', 'cheb'):
         out.append({'func': 'h_reuse_options', 'params': {'kind': kind}})
-    for n in ([[2, 3], [3, 2, 2]] if quick else [[2, 3], [3, 2, 2], [3, 3, 3], [2, 2, 2, 2]]):
+    for n in ([[2, 3], [3, 2, 2], [4]] if quick else [[2, 3], [3, 2, 2], [3, 3, 3], [2, 2, 2, 2], [4], [1]]):
         out.append({'func': 'h_grid_flat', 'params': {'n': n}})
     for m in ([1, 2, 3] if quick else [1, 2, 3, 4]):
         out.append({'func': 'h_cdf', 'params': {'m': m}})
